@@ -23,6 +23,12 @@ Clause(r) ==
                  IF IsNeg(e.v) THEN "ok"
                  ELSE IF r.obs.ok THEN (IF r.obs.bytes = LowBytes(e.v, 3) THEN "ok" ELSE "bytes in context long24")
                  ELSE IF BitLen(e.v) > 24 THEN "ok" ELSE "rejected in context long24"
+           [] r.ctx = "dirauto" ->
+                 \* `lda e` without a suffix: the operand takes the smallest of 1..3 bytes that holds the value (C01);
+                 \* negative values and values beyond 24 bits are outside the statements
+                 IF IsNeg(e.v) \/ BitLen(e.v) > 24 THEN "ok"
+                 ELSE LET w == IF BitLen(e.v) <= 8 THEN 1 ELSE IF BitLen(e.v) <= 16 THEN 2 ELSE 3 IN
+                      IF r.obs.ok /\ r.obs.bytes = LowBytes(e.v, w) THEN "ok" ELSE "operand bytes in context dirauto"
            [] r.ctx = "if" ->
                  IF r.obs.ok /\ r.obs.bytes = <<IF e.v = Zero THEN 0 ELSE 1>> THEN "ok" ELSE "truth value in .if"
            [] r.ctx = "for" ->
